@@ -121,6 +121,34 @@ class SizeCalc:
         self.unbounded.append((ctx, ty))
         return 10 ** 9
 
+    def min_size(self, ty):
+        """smallest encoding of a value of the type (empty vectors, None options, smallest enum variant)"""
+        ty = ty.strip()
+        if ty in PRIM:
+            return PRIM[ty]
+        if ty.startswith("&"):
+            return self.min_size(ty.lstrip("&").strip())
+        if ty.startswith("(") and ty.endswith(")"):
+            inner = ty[1:-1].strip()
+            return sum(self.min_size(t) for t in split_top(inner)) if inner else 0
+        m = re.match(r"^\[(.+); (\d+)\]$", ty)
+        if m:
+            return int(m.group(2)) * self.min_size(m.group(1))
+        if re.match(r"^core::option::Option<(.+)>$", ty):
+            return 1
+        if re.match(r"^alloc::vec::Vec<(.+)>$", ty):
+            return 8
+        base = mir.strip_generics(ty.split("<")[0])
+        if base in self.special:
+            return self.special[base][0]
+        r = self.prog.adts.get(base)
+        if r is not None:
+            sizes = [sum(self.min_size(f["ty"]) for f in v["fields"]) for v in r["variants"]]
+            if r["is_enum"]:
+                return 4 + (min(sizes) if sizes else 0)
+            return sizes[0] if sizes else 0
+        return 0
+
     def reach(self, root):
         """ADTs reachable from root through field types"""
         seen = []
